@@ -5,7 +5,7 @@
    refutation is in Properties/C02.v.  The container level (payload inside TaggedBlock / ImageResource) comes from
    Psd/Typed.v. *)
 From PsdV Require Import Base.Prelude Psd.Codec Psd.Model Psd.Proofs Psd.Leaf Psd.Struct Psd.Typed
-  Psd.Effects Psd.EffectsProofs Psd.Descriptor Psd.Adjust Psd.AdjustProofs Psd.Vector Psd.VectorProofs Psd.Patterns Psd.PatternsProofs Psd.Resave Psd.ResaveProofs Psd.ResaveWrite.
+  Psd.Effects Psd.EffectsProofs Psd.Descriptor Psd.DescriptorProofs Psd.Adjust Psd.AdjustProofs Psd.Vector Psd.VectorProofs Psd.Patterns Psd.PatternsProofs Psd.Resave Psd.ResaveProofs Psd.ResaveWrite.
 From Coq Require Import ZArith List Bool Lia ZifyBool.
 Import ListNotations.
 Open Scope Z_scope.
@@ -309,4 +309,319 @@ Proof.
   destruct (read_length_block_props _ _ _ _ _ _ E2 B1) as (Bd & _).
   pose proof (read_n_u_bytes _ _ _ _ _ F1 Bd) as Bf1.
   destruct (read_u_props _ _ _ _ F2 Bf1) as (Rn & _). lia.
+Qed.
+
+Lemma r_unicode_bytes pad s u s' : r_unicode pad s = Ok (u, s') -> bytes s -> bytes s'.
+Proof.
+  unfold r_unicode. intros H Hs. dres1 H as x Ex. destruct x as [n s1]. cbn [fst snd] in H.
+  destruct (read_u_props _ _ _ _ Ex Hs) as (_ & B1 & _). dres1 H as units Eu. inversion H; subst.
+  destruct (read_upto_props (n * 2) s1 B1) as (_ & Br & _). apply r_pad_props. exact Br.
+Qed.
+Lemma read_n_bytes {A} (rd : stream -> res (A * stream)) :
+  (forall s a s', rd s = Ok (a, s') -> bytes s -> bytes s') ->
+  forall n s l s', read_n n rd s = Ok (l, s') -> bytes s -> bytes s'.
+Proof.
+  intros Hrd. induction n as [|n IH]; intros s l s' H Hs; cbn [read_n] in H; [inversion H; now subst|].
+  dres H as a s1 Ea. dres H as r s2 Er. inversion H; subst. eapply IH; [eassumption|]. eapply Hrd; eassumption.
+Qed.
+
+Section PattWf.
+  Variable enc_s : list Z -> res (list Z).
+  Variable dec_s : list Z -> res (list Z).
+  Hypothesis Hcodec : codec_ok enc_s dec_s.
+
+  Lemma r_rgb3_bytes s a s' : r_rgb3 s = Ok (a, s') -> bytes s -> bytes s'.
+  Proof.
+    unfold r_rgb3, r_rgb. intros H Hs. dres1 H as x Ex. destruct x as [[[r g] b] t]. inversion H; subst.
+    dres Ex as r0 s1 E1. dres Ex as g0 s2 E2. dres Ex as b0 s3 E3. inversion Ex; subst.
+    destruct (read_u_props _ _ _ _ E1 Hs) as (_ & B1 & _). destruct (read_u_props _ _ _ _ E2 B1) as (_ & B2 & _).
+    destruct (read_u_props _ _ _ _ E3 B2) as (_ & B3 & _). exact B3.
+  Qed.
+
+  Theorem read_pattern_wf s p : read_pattern dec_s s = Ok p -> bytes s -> wf_pattern enc_s dec_s p = true.
+  Proof.
+    unfold read_pattern. intros H Hs. dres H as version s1 E1. destruct (negb (version =? 1)) eqn:Ev; [discriminate|].
+    apply negb_false_iff in Ev. dres H as mode s2 E2. destruct (negb (memz mode model_color_modes)) eqn:Em; [discriminate|].
+    apply negb_false_iff in Em. dres H as px s3 E3. dres H as py s4 E4. dres H as name s5 E5. dres H as pid s6 E6.
+    dres H as tbl s7 E7. dres H as data s8 E8. inversion H; subst. clear H.
+    destruct (read_u_props _ _ _ _ E1 Hs) as (_ & B1 & _). destruct (read_u_props _ _ _ _ E2 B1) as (_ & B2 & _).
+    destruct (read_s_props 2 _ _ _ ltac:(lia) E3 B2) as (_ & B3 & _). destruct (read_s_props 2 _ _ _ ltac:(lia) E4 B3) as (_ & B4 & _).
+    pose proof (r_unicode_bytes _ _ _ _ E5 B4) as B5.
+    destruct (write_pascal_ok enc_s dec_s Hcodec _ _ _ _ E6 B5 ltac:(lia)) as (_ & B6 & _).
+    unfold wf_pattern. cbn [pt_version pt_mode pt_id pt_table pt_data].
+    rewrite Ev, Em, (r_pascal_wf enc_s dec_s Hcodec _ _ _ _ E6). cbn [andb].
+    assert (Ht : match tbl with
+                 | Some t => (mode =? model_indexed_mode) && (length t =? 256)%nat
+                 | None => negb (mode =? model_indexed_mode)
+                 end = true /\ bytes s7).
+    { unfold r_opt in E7. destruct (mode =? model_indexed_mode).
+      - dres E7 as t a Et. inversion E7; subst. dres Et as t0 a0 Et0. dres Et as z a2 Ez. inversion Et; subst.
+        rewrite (read_n_length _ _ _ _ _ Et0). split; [reflexivity|].
+        pose proof (read_n_bytes r_rgb3 r_rgb3_bytes _ _ _ _ Et0 B6) as Ba.
+        exact (proj1 (proj2 (take_props _ _ _ _ Ez Ba))).
+      - inversion E7; subst. auto. }
+    destruct Ht as [Ht B7]. rewrite Ht. cbn [andb]. exact (read_vmal_wf _ _ _ E8 B7).
+  Qed.
+  Lemma read_patterns_wf : forall fuel s l, read_patterns dec_s fuel s = Ok l -> bytes s ->
+    forallb (wf_pattern enc_s dec_s) l = true.
+  Proof.
+    induction fuel as [|f IH]; intros s l H Hs; cbn [read_patterns] in H; [discriminate|].
+    destruct (is_readable 4 s); [|inversion H; reflexivity].
+    dres H as data s1 Ed. dres1 H as p Ep. dres1 H as r Er. inversion H; subst.
+    destruct (read_length_block_props _ _ _ _ _ _ Ed Hs) as (Bd & B1 & _).
+    cbn [forallb]. now rewrite (read_pattern_wf _ _ Ep Bd), (IH _ _ Er B1).
+  Qed.
+  Theorem patterns_resave b l s n :
+    bytes b -> read_patterns dec_s (S (length b)) b = Ok l -> write_patterns enc_s l = Ok (s, n) ->
+    read_patterns dec_s (S (length s)) s = Ok l.
+  Proof. intros Hb Hr Hw. exact (patterns_rt enc_s dec_s l s n (read_patterns_wf _ _ _ Hr Hb) Hw). Qed.
+End PattWf.
+
+(* ------------------------------------------------------------------ the descriptor family
+   The reader's range is larger than wf_dval in exactly one respect: a key that the input ends inside.
+   read_length_and_key takes `fp.read(length or 4)` as it comes: at the end of the block the key is short or empty,
+   and when its length field was 0 the short key is ADDED TO _TERMS.  The writer then emits it with length 0, and the
+   re-read takes four bytes for it (the key plus padding / following bytes).  Guard: every key of the value is
+   non-empty ([dkeys]) and every term is 4 bytes long (wf_terms of the term set after the read): finding F-C02-7. *)
+Fixpoint dkeys (d : dval) : bool :=
+  let ok_items (items : list (key * dval)) :=
+    forallb (fun kv : key * dval => let (k, v) := kv in nonempty_key k && dkeys v) items in
+  match d with
+  | DDesc _ _ cid items => nonempty_key cid && ok_items items
+  | DObjArr _ _ cid items => nonempty_key cid && ok_items items
+  | DList _ items => forallb dkeys items
+  | DProperty _ cid kid => nonempty_key cid && nonempty_key kid
+  | DClass _ _ cid => nonempty_key cid
+  | DEnumRef _ cid tid en => nonempty_key cid && nonempty_key tid && nonempty_key en
+  | DOffset _ cid _ => nonempty_key cid
+  | DEnum tid en => nonempty_key tid && nonempty_key en
+  | DName _ cid _ => nonempty_key cid
+  | _ => true
+  end.
+
+(* OrderedDict of (key, value) pairs: keys distinct, every value is one of the values read *)
+Lemma key_in_odk_insert k v d x :
+  key_in x (map fst (odk_insert k v d)) = key_in x (map fst d) || (list_eqb x k && negb (key_in k (map fst d))).
+Proof.
+  induction d as [|[k' v'] t IH]; cbn [odk_insert map fst key_in].
+  - now rewrite orb_false_r, andb_true_r.
+  - destruct (list_eqb k k') eqn:E.
+    + cbn [map fst key_in orb negb]. now rewrite andb_false_r, orb_false_r.
+    + cbn [map fst key_in orb]. rewrite IH. now rewrite orb_assoc.
+Qed.
+Lemma nodupk_odk_insert k v d : nodupk (map fst d) = true -> nodupk (map fst (odk_insert k v d)) = true.
+Proof.
+  induction d as [|[k' v'] t IH]; intros H; cbn [odk_insert map fst nodupk]; [reflexivity|].
+  cbn [map fst nodupk] in H. apply andb_prop in H as [H1 H2].
+  destruct (list_eqb k k') eqn:E.
+  - cbn [map fst nodupk]. now rewrite H1, H2.
+  - cbn [map fst nodupk]. rewrite (IH H2), andb_true_r, key_in_odk_insert.
+    apply negb_true_iff in H1. rewrite H1. cbn [orb].
+    destruct (list_eqb k' k) eqn:E2; [apply list_eqb_eq in E2; subst; rewrite list_eqb_refl in E; discriminate|reflexivity].
+Qed.
+Lemma Forall_odk_insert (Q : dval -> Prop) k v d :
+  Q v -> Forall (fun kv => Q (snd kv)) d -> Forall (fun kv : key * dval => Q (snd kv)) (odk_insert k v d).
+Proof.
+  intros Hv. induction 1 as [|[k' v'] t Hy Ht IH]; cbn [odk_insert]; [repeat constructor; exact Hv|].
+  destruct (list_eqb k k'); constructor; auto.
+Qed.
+Lemma odk_build_props (Q : dval -> Prop) l : Forall (fun kv => Q (snd kv)) l ->
+  nodupk (map fst (odk_build l)) = true /\ Forall (fun kv : key * dval => Q (snd kv)) (odk_build l).
+Proof.
+  unfold odk_build. intros H.
+  assert (G : forall d, nodupk (map fst d) = true -> Forall (fun kv : key * dval => Q (snd kv)) d ->
+              nodupk (map fst (fold_left (fun d kv => odk_insert (fst kv) (snd kv) d) l d)) = true /\
+              Forall (fun kv : key * dval => Q (snd kv)) (fold_left (fun d kv => odk_insert (fst kv) (snd kv) d) l d)).
+  { induction H as [|x l Hx Hl IH]; intros d Hd HQ; cbn [fold_left]; [auto|].
+    apply IH; [now apply nodupk_odk_insert|now apply Forall_odk_insert]. }
+  apply G; [reflexivity|constructor].
+Qed.
+
+Section DvalWf.
+  Variable units : list Z.
+  Definition Pwf (d : dval) (os : Z) : Prop := ostype_of d = os /\ (dkeys d = true -> wf_dval units d = true).
+  Definition rd_ok (rd : terms -> Z -> stream -> res (dval * terms * stream)) : Prop :=
+    forall t os s d t' s', rd t os s = Ok (d, t', s') -> Pwf d os.
+
+  Lemma read_items_wf rd : rd_ok rd -> forall n t s items t' s',
+    read_items rd n t s = Ok (items, t', s') ->
+    Forall (fun kv : key * dval => dkeys (snd kv) = true -> wf_dval units (snd kv) = true) items.
+  Proof.
+    intros Hrd. induction n as [|n IH]; intros t s items t' s' H; cbn [read_items] in H.
+    - inversion H. constructor.
+    - dres H as kt a1 E1. dres H as o a2 E2. dres H as vt a3 E3. dres H as rt a4 E4. inversion H; subst.
+      destruct vt as [v tv]. destruct rt as [r tr]. cbn [fst snd] in *.
+      constructor; [exact (proj2 (Hrd _ _ _ _ _ _ E3))|eapply IH; eassumption].
+  Qed.
+  Lemma read_list_items_wf rd : rd_ok rd -> forall n t s items t' s',
+    read_list_items rd n t s = Ok (items, t', s') ->
+    Forall (fun v => dkeys v = true -> wf_dval units v = true) items.
+  Proof.
+    intros Hrd. induction n as [|n IH]; intros t s items t' s' H; cbn [read_list_items] in H.
+    - inversion H. constructor.
+    - dres H as o a2 E2. dres H as vt a3 E3. dres H as rt a4 E4. inversion H; subst.
+      destruct vt as [v tv]. destruct rt as [r tr]. cbn [fst snd] in *.
+      constructor; [exact (proj2 (Hrd _ _ _ _ _ _ E3))|eapply IH; eassumption].
+  Qed.
+  (* the items of a dict-like value, after OrderedDict *)
+  Lemma items_wf (items : list (key * dval)) :
+    nodupk (map fst items) = true ->
+    Forall (fun kv : key * dval => dkeys (snd kv) = true -> wf_dval units (snd kv) = true) items ->
+    forallb (fun kv : key * dval => let (k, v) := kv in nonempty_key k && dkeys v) items = true ->
+    forallb (fun kv : key * dval => let (k, v) := kv in nonempty_key k && wf_dval units v) items && nodupk (map fst items) = true.
+  Proof.
+    intros Hn HF Hg. rewrite Hn, andb_true_r. clear Hn.
+    induction HF as [|[k v] l Hv Hl IH]; [reflexivity|]. cbn [forallb] in *. apply andb_prop in Hg as [Hkv Hg].
+    apply andb_prop in Hkv as [Hk Hd]. cbn [snd] in Hv. now rewrite Hk, (Hv Hd), (IH Hg).
+  Qed.
+
+  Lemma read_dval_wf : forall fuel, rd_ok (read_dval units fuel).
+  Proof.
+    induction fuel as [|f IH]; intros t os s d t' s' H; [discriminate|]. cbn [read_dval] in H.
+    set (body := fun (t : terms) (s : stream) =>
+        do (name, s1) <- r_unicode 1 s; do (ct, s2) <- read_key t s1; do (count, s3) <- read_u 4 s2;
+        do (r, s4) <- read_items (read_dval units f) (clampn count s3) (snd ct) s3;
+        Ok (name, fst ct, odk_build (fst r), snd r, s4)) in H.
+    assert (Hbody : forall t s name cid items t1 s1, body t s = Ok (name, cid, items, t1, s1) ->
+              nodupk (map fst items) = true /\
+              Forall (fun kv : key * dval => dkeys (snd kv) = true -> wf_dval units (snd kv) = true) items).
+    { intros t0 s0 name cid items t1 s1 Hb. unfold body in Hb.
+      dres Hb as nm u1 F1. dres Hb as ct u2 F2. dres Hb as count u3 F3. dres Hb as r u4 F4. inversion Hb; subst.
+      destruct r as [its tr]. cbn [fst snd] in *.
+      apply (odk_build_props (fun v => dkeys v = true -> wf_dval units v = true)).
+      exact (read_items_wf _ IH _ _ _ _ _ _ F4). }
+    destruct ((os =? OS_Objc) || (os =? OS_GlbO)) eqn:K1.
+    { dres H as b s1 Eb. destruct b as [[[name cid] items] t1]. inversion H; subst.
+      destruct (Hbody _ _ _ _ _ _ _ Eb) as [Hn HF]. split; [reflexivity|]. cbn [dkeys wf_dval]. intros Hg.
+      apply andb_prop in Hg as [Hc Hi]. rewrite K1, Hc. cbn [andb]. now apply items_wf. }
+    destruct (os =? OS_ObAr) eqn:K2.
+    { apply Z.eqb_eq in K2. dres H as c s0 Ec. dres H as b s1 Eb. destruct b as [[[name cid] items] t1]. inversion H; subst.
+      destruct (Hbody _ _ _ _ _ _ _ Eb) as [Hn HF]. split; [reflexivity|]. cbn [dkeys wf_dval]. intros Hg.
+      apply andb_prop in Hg as [Hc Hi]. rewrite Hc. cbn [andb]. now apply items_wf. }
+    destruct ((os =? OS_VlLs) || (os =? OS_obj)) eqn:K3.
+    { dres H as count s1 Ec. dres H as r s2 Er. inversion H; subst. destruct r as [its tr]. cbn [fst snd] in *.
+      split; [reflexivity|]. cbn [dkeys wf_dval]. intros Hg. rewrite K3. cbn [andb].
+      pose proof (read_list_items_wf _ IH _ _ _ _ _ _ Er) as HF. clear Er H.
+      induction HF as [|v l Hv Hl IHl]; [reflexivity|]. cbn [forallb] in *. apply andb_prop in Hg as [H1 H2].
+      now rewrite (Hv H1), (IHl H2). }
+    destruct (os =? OS_prop) eqn:K4.
+    { apply Z.eqb_eq in K4. dres H as name s1 E1. dres H as c s2 E2. dres H as k s3 E3. inversion H; subst.
+      split; [reflexivity|]. cbn [dkeys wf_dval]. auto. }
+    destruct (os =? OS_UntF) eqn:K5.
+    { apply Z.eqb_eq in K5. dres H as u s1 E1. dres H as v s2 E2. destruct (memz u units) eqn:Eu; [|discriminate].
+      inversion H; subst. split; [reflexivity|]. cbn [wf_dval]. auto. }
+    destruct (os =? OS_UnFl) eqn:K6.
+    { apply Z.eqb_eq in K6. dres H as u s1 E1. dres H as n s2 E2. dres H as vs s3 E3.
+      destruct (negb (len vs =? n)); [discriminate|]. destruct (memz u units) eqn:Eu; [|discriminate].
+      inversion H; subst. split; [reflexivity|]. cbn [wf_dval]. auto. }
+    destruct (os =? OS_doub) eqn:K7.
+    { apply Z.eqb_eq in K7. dres H as v s1 E1. inversion H; subst. split; [reflexivity|]. auto. }
+    destruct ((os =? OS_type) || (os =? OS_GlbC) || (os =? OS_Clss)) eqn:K8.
+    { dres H as name s1 E1. dres H as c s2 E2. inversion H; subst. split; [reflexivity|]. cbn [dkeys wf_dval].
+      intros Hg. now rewrite K8, Hg. }
+    destruct (os =? OS_TEXT) eqn:K9.
+    { apply Z.eqb_eq in K9. dres H as u s1 E1. inversion H; subst. split; [reflexivity|]. auto. }
+    destruct (os =? OS_Enmr) eqn:K10.
+    { apply Z.eqb_eq in K10. dres H as name s1 E1. dres H as c s2 E2. dres H as ty s3 E3. dres H as e s4 E4.
+      inversion H; subst. split; [reflexivity|]. cbn [dkeys wf_dval]. auto. }
+    destruct (os =? OS_rele) eqn:K11.
+    { apply Z.eqb_eq in K11. dres H as name s1 E1. dres H as c s2 E2. dres H as v s3 E3. inversion H; subst.
+      split; [reflexivity|]. cbn [dkeys wf_dval]. auto. }
+    destruct (os =? OS_bool) eqn:K12.
+    { apply Z.eqb_eq in K12. dres H as v s1 E1. inversion H; subst. split; [reflexivity|]. auto. }
+    destruct (os =? OS_comp) eqn:K13.
+    { apply Z.eqb_eq in K13. dres H as v s1 E1. inversion H; subst. split; [reflexivity|]. auto. }
+    destruct ((os =? OS_long) || (os =? OS_Idnt) || (os =? OS_indx)) eqn:K14.
+    { dres H as v s1 E1. inversion H; subst. split; [reflexivity|]. cbn [wf_dval]. auto. }
+    destruct (os =? OS_enum) eqn:K15.
+    { apply Z.eqb_eq in K15. dres H as ty s1 E1. dres H as e s2 E2. inversion H; subst.
+      split; [reflexivity|]. cbn [dkeys wf_dval]. auto. }
+    destruct ((os =? OS_tdta) || (os =? OS_alis) || (os =? OS_Pth)) eqn:K16.
+    { dres H as b s1 E1. inversion H; subst. split; [reflexivity|]. cbn [wf_dval]. auto. }
+    destruct (os =? OS_name) eqn:K17; [|discriminate].
+    { apply Z.eqb_eq in K17. dres H as name s1 E1. dres H as c s2 E2. dres H as v s3 E3. inversion H; subst.
+      split; [reflexivity|]. cbn [dkeys wf_dval]. auto. }
+  Qed.
+
+  (* re-saving a descriptor value: written under the term set AFTER the read (the global _TERMS has grown) *)
+  Theorem dval_resave fuel t os b d t' r s n rest :
+    read_dval units fuel t os b = Ok (d, t', r) -> dkeys d = true -> wf_terms t' = true ->
+    write_dval t' d = Ok (s, n) -> read_dval units (S (length s)) t' os (s ++ rest) = Ok (d, t', rest).
+  Proof.
+    intros Hr Hk Ht Hw. destruct (read_dval_wf _ _ _ _ _ _ _ Hr) as [Hos Hwf]. rewrite <- Hos.
+    apply (dval_rt units t' Ht d (Hwf Hk) s n rest (S (length s)) Hw).
+    pose proof (dsize_le t' d s n Hw). lia.
+  Qed.
+End DvalWf.
+
+(* ------------------------------------------------------------------ descriptor based payloads *)
+Definition dblock_val (b : dblock) : dval := match b with DBlock _ d => d | DBlock2 _ _ d => d end.
+Definition dguard (t' : terms) (d : dval) : bool := dkeys d && wf_terms t'.
+
+Lemma objc_is_desc units d : ostype_of d = OS_Objc -> wf_dval units d = true ->
+  match d with DDesc os _ _ _ => os =? OS_Objc | _ => false end = true.
+Proof.
+  intros Hos Hw. destruct d; cbn [ostype_of] in Hos; try (vm_compute in Hos; discriminate); subst;
+    try reflexivity; cbn [wf_dval] in Hw; apply andb_prop in Hw as [Hw _]; vm_compute in Hw; discriminate.
+Qed.
+Theorem read_dblock_wf units two t s blk t' :
+  read_dblock units two t s = Ok (blk, t') -> dkeys (dblock_val blk) = true -> wf_dblock units blk = true.
+Proof.
+  unfold read_dblock. intros H Hk. destruct two.
+  - dres H as ver s1 E1. dres H as dv s2 E2. dres H as r s3 E3. destruct (dv =? 16) eqn:Ev; [|discriminate].
+    inversion H; subst. destruct r as [d tr]. cbn [fst snd dblock_val] in *.
+    destruct (read_dval_wf units _ _ _ _ _ _ _ E3) as [Hos Hwf]. cbn [wf_dblock]. rewrite Ev, (Hwf Hk), andb_true_r. cbn [andb].
+    exact (objc_is_desc units d Hos (Hwf Hk)).
+  - dres H as ver s1 E1. dres H as r s3 E3. destruct (ver =? 16) eqn:Ev; [|discriminate].
+    inversion H; subst. destruct r as [d tr]. cbn [fst snd dblock_val] in *.
+    destruct (read_dval_wf units _ _ _ _ _ _ _ E3) as [Hos Hwf]. cbn [wf_dblock]. rewrite Ev, (Hwf Hk), andb_true_r. cbn [andb].
+    exact (objc_is_desc units d Hos (Hwf Hk)).
+Qed.
+Theorem dblock_resave units two t b blk t' pad s n :
+  0 < pad -> read_dblock units two t b = Ok (blk, t') -> dguard t' (dblock_val blk) = true ->
+  write_dblock t' pad blk = Ok (s, n) ->
+  read_dblock units two t' s = Ok (blk, t').
+Proof.
+  intros Hp Hr Hg Hw. apply andb_prop in Hg as [Hk Ht].
+  pose proof (dblock_rt units t' pad blk s n Hp Ht (read_dblock_wf _ _ _ _ _ _ Hr Hk) Hw) as Hrt.
+  replace two with (match blk with DBlock _ _ => false | DBlock2 _ _ _ => true end); [exact Hrt|].
+  unfold read_dblock in Hr. destruct two.
+  - dres Hr as ver s1 E1. dres Hr as dv s2 E2. dres Hr as r s3 E3. destruct (dv =? 16); [|discriminate]. inversion Hr; subst; reflexivity.
+  - dres Hr as ver s1 E1. dres Hr as r s3 E3. destruct (ver =? 16); [|discriminate]. inversion Hr; subst; reflexivity.
+Qed.
+
+Theorem color_lookup_resave units t b ver dv d t' pad s n :
+  read_color_lookup units t b = Ok (ver, dv, d, t') -> dguard t' d = true ->
+  write_color_lookup t' pad ver dv d = Ok (s, n) -> read_color_lookup units t' s = Ok (ver, dv, d, t').
+Proof.
+  unfold read_color_lookup at 1. intros H Hg Hw. apply andb_prop in Hg as [Hk Ht].
+  dres H as ver0 s1 E1. dres H as dv0 s2 E2. dres H as r s3 E3. destruct (dv0 =? 16) eqn:Ev; [|discriminate].
+  inversion H; subst. destruct r as [d0 tr]. cbn [fst snd] in *. apply Z.eqb_eq in Ev. subst dv.
+  destruct (read_dval_wf units _ _ _ _ _ _ _ E3) as [Hos Hwf].
+  eapply color_lookup_rt; [exact Ht|exact (Hwf Hk)|exact Hos|exact Hw].
+Qed.
+Theorem vscg_resave units t b key version d t' pad s n :
+  read_vscg units t b = Ok (key, version, d, t') -> dguard t' d = true ->
+  write_vscg t' pad key version d = Ok (s, n) -> read_vscg units t' s = Ok (key, version, d, t').
+Proof.
+  unfold read_vscg at 1. intros H Hg Hw. apply andb_prop in Hg as [Hk Ht].
+  dres H as key0 s1 E1. dres H as ver0 s2 E2. dres H as r s3 E3. inversion H; subst. destruct r as [d0 tr]. cbn [fst snd] in *.
+  destruct (read_dval_wf units _ _ _ _ _ _ _ E3) as [Hos Hwf].
+  eapply vscg_rt; [exact Ht|exact (Hwf Hk)|exact Hos|exact Hw].
+Qed.
+
+(* ------------------------------------------------------------------ the container level for free (Psd/Typed.v):
+   a payload read out of a tagged block / an image resource by ANY class reader [rd] whose values re-save (the
+   theorems above), written back through the class writer [w]: the block read from the saved bytes holds the same
+   signature, key and value, whatever follows *)
+Theorem payload_block_resave {X} (rd : stream -> res X) (w : X -> W) v pad b sg key x s' bs n rest :
+  (pad = 1 \/ pad = 2 \/ pad = 4) ->
+  read_payload_block rd v pad b = Ok (Some (sg, key, x, s')) ->
+  wtruth (w x) -> (forall body m, w x = Ok (body, m) -> rd body = Ok x) ->
+  write_payload_block v pad sg key (w x) = Ok (bs, n) ->
+  read_payload_block rd v pad (bs ++ rest) = Ok (Some (sg, key, x, rest)).
+Proof.
+  intros Hpad Hr Hw Hrd Hwr. unfold read_payload_block in Hr. dres1 Hr as o Eo. destruct o as [[tb s1]|]; [|discriminate].
+  dres1 Hr as x0 Ex. inversion Hr; subst.
+  apply (payload_block_rt v pad (tb_sig tb) (tb_key tb) (w x) rd x bs n rest Hpad (read_tagged_block_wf _ _ _ _ _ Eo) Hw Hrd Hwr).
 Qed.
